@@ -1017,3 +1017,124 @@ Proof.
   - intros a l0 b os0 Ra _ H. eapply raw_lext; eauto. eapply reachf_inv; eauto.
   - intros a b os0 _ H. apply keeps_lext. eapply settle1_keeps; eauto.
 Qed.
+
+(* what the transitions preserve *)
+Lemma tstep_body t t' o : tstep t t' -> body_of_outcome t' o = body_of_outcome t o.
+Proof. destruct 1; reflexivity. Qed.
+Lemma tsteps_body t t' o : tsteps t t' -> body_of_outcome t' o = body_of_outcome t o.
+Proof. induction 1; auto. rewrite IHtsteps. eapply tstep_body; eauto. Qed.
+
+Lemma tstep_done t t' bo : tstep t t' -> t_st t = TDone bo -> t_st t' = TDone bo.
+Proof. destruct 1; cbn; auto; intros E; try congruence; destruct H; congruence. Qed.
+Lemma tsteps_done t t' bo : tsteps t t' -> t_st t = TDone bo -> t_st t' = TDone bo.
+Proof. induction 1; auto. intros E. apply IHtsteps. eapply tstep_done; eauto. Qed.
+
+Lemma tsteps_handled t t' o : tsteps t t' -> t_st t = TAtHandled o ->
+  t_st t' = TAtHandled o \/ t_st t' = TDone (body_of_outcome t o).
+Proof.
+  induction 1 as [t|t t1 t2 H1 H2 IH]; auto. intros E.
+  destruct H1; cbn in *; try congruence; try (destruct H; congruence).
+  - apply IH in E. rewrite (tstep_body t _ o (ts_cancel t)) in E. auto.
+  - right. assert (o0 = o) by congruence. subst o0. eapply tsteps_done; eauto.
+Qed.
+
+Lemma tsteps_running t t' : tsteps t t' -> t_st t = TRunning ->
+  t_st t' = TRunning \/ exists o, t_st t' = TAtHandled o \/ t_st t' = TDone (body_of_outcome t o).
+Proof.
+  induction 1 as [t|t t1 t2 H1 H2 IH]; auto. intros E.
+  destruct H1; cbn in *; try congruence; try (destruct H; congruence).
+  - apply IH in E as [E|(o & E)]; auto. right. exists o. rewrite (tstep_body t _ o (ts_cancel t)) in E. auto.
+  - right. exists o. pose proof (tsteps_handled _ _ o H2 eq_refl) as Q. cbn in Q. exact Q.
+Qed.
+
+Definition done_ok (t : task) : Prop :=
+  forall bo, t_st t = TDone bo -> bo = Some cancel_err \/ exists o, bo = body_of_outcome t o.
+
+Lemma tstep_done_ok t t' : tstep t t' -> done_ok t -> done_ok t'.
+Proof.
+  intros H D bo E. destruct H; cbn in E; try congruence; try (destruct H; congruence).
+  - destruct (D _ E) as [->|(o & ->)]; [left; auto|right; exists o; reflexivity].
+  - injection E as <-. auto.
+  - injection E as <-. auto.
+  - injection E as <-. right. exists o. reflexivity.
+Qed.
+Lemma tsteps_done_ok t t' : tsteps t t' -> done_ok t -> done_ok t'.
+Proof. induction 1; auto. intros D. apply IHtsteps. eapply tstep_done_ok; eauto. Qed.
+
+Lemma mk_task_done_ok s u ids m : done_ok (mk_task s u ids m).
+Proof. intros bo E. destruct (mk_task_st s u ids m) as [[S _]|[S _]]; rewrite S in E; discriminate. Qed.
+
+Lemma dequeue_done_ok s : (forall k t, nth_error (tasks s) k = Some t -> done_ok t) ->
+  forall k t, nth_error (tasks (dequeue s)) k = Some t -> done_ok t.
+Proof.
+  intros H k t E. unfold dequeue in E. destruct (inq s) as [|[b ms] q]; [destruct (running s); cbn in E; eauto|].
+  cbn in E. destruct (Nat.lt_ge_cases k (length (tasks s))) as [Lt|Ge].
+  - rewrite nth_error_app1 in E by auto. eauto.
+  - rewrite nth_error_app2 in E by auto. apply nth_error_In, in_map_iff in E as (m & <- & _). apply mk_task_done_ok.
+Qed.
+
+Theorem reachf_done_ok c s : reachf c s -> forall k t, nth_error (tasks s) k = Some t -> done_ok t.
+Proof.
+  induction 1 as [|s l s' os R IH Cr H|s s' os R IH H]; intros k t' E'.
+  - destruct k; discriminate.
+  - pose proof (reachf_inv _ _ R) as I.
+    destruct (raw_shape_ok _ _ _ _ I H) as [_ L| -> |u un _ _ _ _ L]; [| eapply dequeue_done_ok; eauto |].
+    all: destruct (nth_error (tasks s) k) as [t|] eqn:E;
+      [ destruct (raw_lext _ _ _ _ I H _ _ E) as (t2 & E2 & X); rewrite E' in E2; injection E2 as <-;
+        eapply tsteps_done_ok; eauto
+      | apply nth_error_None in E; apply nth_error_some_lt in E'; lia ].
+  - apply settle1_inv in H. destruct H; cbn in E'; eauto. eapply dequeue_done_ok; eauto.
+Qed.
+
+(** * C01.2: the body of a finished call *)
+(* a stored body is the cancellation error or the body of some outcome, and only unrejected members have one *)
+Theorem c01_done_body c s k t bo : reach c s -> nth_error (tasks s) k = Some t -> t_st t = TDone bo ->
+  t_pre t = None /\ (bo = Some cancel_err \/ exists o, bo = body_of_outcome t o).
+Proof.
+  intros R E St. apply reach_reachf in R. split; [|eapply reachf_done_ok; eauto].
+  destruct (t_pre t) as [e|] eqn:P; auto. rewrite (task_pre_skip _ _ _ _ _ R E P) in St. discriminate.
+Qed.
+
+(* once the gate has given outcome o to a task, the body it ends with is the body of o, on every trace *)
+Theorem c01_correlated c s tr s' oss k t o : reach c s -> run s tr = Some (s', oss) ->
+  nth_error (tasks s) k = Some t -> t_st t = TAtHandled o ->
+  exists t', nth_error (tasks s') k = Some t' /\
+    (t_st t' = TAtHandled o \/ t_st t' = TDone (body_of_outcome t o)) /\
+    (forall b, t_st t' = TDone (Some b) -> task_body t' = b /\ Some b = body_of_outcome t o).
+Proof.
+  intros R H E St. apply reach_reachf in R.
+  destruct (run_lext _ _ _ _ _ R H _ _ E) as (t' & E' & X). exists t'. split; auto.
+  pose proof (tsteps_handled _ _ _ X St) as Q. split; auto.
+  intros b Sb. split.
+  - unfold task_body. rewrite Sb.
+    destruct (run_task_le _ _ _ _ _ _ _ R H E) as (t2 & E2 & Le). rewrite E' in E2. injection E2 as <-.
+    destruct Le as [_ _ _ _ Lp _ _ _ _]. rewrite Lp.
+    destruct (t_pre t) as [e|] eqn:P; auto. rewrite (task_pre_skip _ _ _ _ _ R E P) in St. discriminate.
+  - destruct Q as [Q|Q]; congruence.
+Qed.
+
+(* and a running task can only end with the body of the outcome of a gate *)
+Theorem c01_correlated_running c s tr s' oss k t : reach c s -> run s tr = Some (s', oss) ->
+  nth_error (tasks s) k = Some t -> t_st t = TRunning ->
+  exists t', nth_error (tasks s') k = Some t' /\
+    (t_st t' = TRunning \/ exists o, t_st t' = TAtHandled o \/ t_st t' = TDone (body_of_outcome t o)).
+Proof.
+  intros R H E St. apply reach_reachf in R.
+  destruct (run_lext _ _ _ _ _ R H _ _ E) as (t' & E' & X). exists t'. split; auto.
+  eapply tsteps_running; eauto.
+Qed.
+
+Example c01_correlated_nonvacuous :
+  exists s tr s' oss t o, reach ex_cfg s /\ run s tr = Some (s', oss) /\ nth_error (tasks s) 0 = Some t /\
+    t_st t = TAtHandled o /\ option_map t_st (nth_error (tasks s') 0) = Some (TDone (Some (BRes [50%N]))).
+Proof.
+  exists (st_of ex_cfg (ex_tr_running ++ [LGate [91;93]%N (ORes [50%N])])), [LRelHandled 0; LRelDeliver 0].
+  eexists _, _, _, _. split; [apply reach_st_of; vm_compute; discriminate|]. compute. repeat split; reflexivity.
+Qed.
+
+Example c01_done_body_nonvacuous :
+  exists s t bo, reach ex_cfg s /\ nth_error (tasks s) 0 = Some t /\ t_st t = TDone bo.
+Proof.
+  exists (st_of ex_cfg ex_tr_delivered). eexists _, _.
+  split; [apply reach_st_of; vm_compute; discriminate|]. compute. split; reflexivity.
+Qed.
